@@ -221,6 +221,9 @@ Proof.
     + apply acct_ret; cbn; ring.
     + apply acct_ret; cbn; ring.
     + apply acct_ret; cbn; ring.
+    + pose proof (do_shutter_dw c st on) as [H1 H2]. destruct (do_shutter c st on) as [st1 e1].
+      unfold acct, final, emitted. cbn [fst snd] in *. rewrite H1, H2. ring.
+    + apply acct_ret. destruct i; cbn; ring.
   - intros n b HF st. rewrite exec_repeat. destruct n as [n|]; [|apply acct_ret; cbn; ring].
     destruct (n <=? 0)%Z eqn:En; [apply acct_ret; cbn; ring|]. apply Z.leb_gt in En.
     apply (close_loop_acct st n (SRep n) _ (count n)); [now apply exec_list_acct | | now apply count_pos].
@@ -383,6 +386,8 @@ Proof.
       destruct (negb (mem _ _)); [now apply good_same|].
       pose proof (do_dwell_good st (short_p c)) as [W P]. destruct (do_dwell st (short_p c)) as [st1 e1].
       cbn [fst snd] in *. apply good_same; [|exact P]. rewrite wf_app, W. reflexivity.
+    + pose proof (do_shutter_good c st on) as [W P]. destruct (do_shutter c st on) as [st1 e1]. now apply good_same.
+    + apply good_same; [destruct i; reflexivity | reflexivity].
   - intros n b HF st. rewrite exec_repeat. destruct n as [n|]; [|now apply good_same].
     destruct (n <=? 0)%Z; [now apply good_same|].
     apply close_loop_good; [now apply exec_list_good|]. intros e W. cbn [wf]. rewrite wf_s_rep, W. reflexivity.
